@@ -942,7 +942,7 @@ func TestVerifC19(t *testing.T) {
 	ambMax := 5
 	idxSmallMax := 8
 	c4Max, common4Max := 8, 5
-	winStep := 3 // graph windows of the 80-mers: start and length on a grid of this step (quick)
+	winStep := 4 // graph windows of the 80-mers: start and length on a grid of this step (quick)
 	if thorough {
 		singleMax, pairMax = 10, 6
 		ambMax = 6
